@@ -16,6 +16,9 @@ class BoxGauss(sd.Target):
     def __init__(self, dims, s, c):
         super().__init__(dims, s=s, c=c, prior="box", box=5.0)
 
+    def box_bounds(self):          # the closed forms below are for the symmetric cube
+        return np.full(self.dims, -5.0), np.full(self.dims, 5.0)
+
     def truth(self):
         from scipy.stats import truncnorm
         a, b = (-5.0 - self.c) / self.s, (5.0 - self.c) / self.s
